@@ -1264,6 +1264,33 @@ def _r9_hoisting(model, rep, RID="C05.R9"):
                 rep.unknown(RID, key, AVD, c.lineno, f"table `{norm(vk)}` not recognised")
     if not (seen["method"] and seen["block"] and seen["class"]):
         raise AnalysisError(f"{f.ref}: frame constructions not classified ({seen})")
+    # the collector of hoisted declarations is shared the same way: for the languages whose declarations rise to the function top, the
+    # frame of a nested body gets the ENCLOSING FRAME'S collector object itself.  `x or []`, `list(x)`, `x[:]` give a different object
+    # whenever x is (still) empty, and what the block collects is then inserted nowhere
+    n_coll = 0
+    for c_ in frames:
+        hk = kwarg(c_, "hoist_collector")
+        if hk is None:
+            continue
+        exprs = [hk]
+        if isinstance(hk, ast.Name):
+            exprs = [a_.value for a_ in walk_no_nested(f.node) if isinstance(a_, ast.Assign) and len(a_.targets) == 1 and isinstance(a_.targets[0], ast.Name)
+                     and a_.targets[0].id == hk.id]
+        shared = [e_ for e_ in exprs if any(isinstance(x, ast.Attribute) and x.attr == "hoist_collector" for x in ast.walk(e_))]
+        if not shared:
+            continue
+        n_coll += 1
+        key = f"{where}::nested statement bodies share the enclosing frame's hoist collector"
+        bad = [e_ for e_ in shared if not (isinstance(e_, ast.Attribute) and e_.attr == "hoist_collector")]
+        if bad:
+            rep.violation(RID, key, AVD, bad[0].lineno,
+                          f"the body of a nested statement is given `{norm(bad[0])}` as its collector: when the enclosing collector is still empty that is a "
+                          f"NEW list, so the declaration of a variable first assigned inside an if/while body is removed from the block and inserted "
+                          f"nowhere -- the name then binds to a same-named variable of an enclosing scope")
+        else:
+            rep.holds(RID, key, AVD, shared[0].lineno, f"`{norm(shared[0])}` (the same object)")
+    if not n_coll:
+        raise AnalysisError(f"{f.ref}: no StackFrame of a nested body receives the enclosing frame's hoist_collector")
     # the table is keyed by NAMES: whatever is entered into a declared-name table (the local handed to StackFrame as `variables=`, or
     # `<frame>.variables`) is entered under an expression that reads the `name` of a declaration -- the later lookups are by name
     tables = {vk_.id for c_ in frames for vk_ in [kwarg(c_, "variables")] if isinstance(vk_, ast.Name)}
